@@ -52,6 +52,10 @@ type mnamesEvent struct {
 	OorEn    []string          `json:"oor_en"`
 	UnkRef   string            `json:"unk_ref"` // the name AttackVector gives its unknown value in this language
 	BaseVals map[string]string `json:"base_vals"`
+	// what the same functions returned at the very beginning of the process, before any other language
+	// tag (in particular a regional variant of en / ja) had been used
+	FirstTitle string            `json:"first_title"`
+	FirstVals  map[string]string `json:"first_vals"`
 }
 
 func valueTable(i int, tag language.Tag) (map[string]string, []string) {
@@ -85,7 +89,19 @@ func cmdNames(args []string) {
 	commonFlags(fs)
 	fs.Parse(args)
 	rec := NewRecorder()
-	// regional variants of en / ja are asked first: unspecified themselves, they must not change what follows
+	// pass 1: English and Japanese tables read in a process that has not used any other tag yet
+	type firstT struct {
+		title string
+		vals  map[string]string
+	}
+	first := map[string]firstT{}
+	for _, ln := range []string{"ja", "en"} {
+		for i, nm := range nameMetas {
+			v, _ := valueTable(i, langTags[ln])
+			first[ln+"|"+nm.Name] = firstT{asciiSafe(nm.Title(langTags[ln])), v}
+		}
+	}
+	// regional variants of en / ja are asked next: unspecified themselves, they must not change what follows
 	for _, tag := range regionalTags {
 		for i, nm := range nameMetas {
 			nm.Title(tag)
@@ -103,6 +119,10 @@ func cmdNames(args []string) {
 			if b, ok := modOf[i]; ok {
 				ev.BaseVals, _ = valueTable(b, tag)
 			}
+			ev.FirstTitle, ev.FirstVals = ev.Title, ev.Vals
+			if f, ok := first[lname+"|"+nm.Name]; ok {
+				ev.FirstTitle, ev.FirstVals = f.title, f.vals
+			}
 			calls += 24
 			rec.Add(evBody(ev), "names."+nm.Name)
 		}
@@ -113,7 +133,8 @@ func cmdNames(args []string) {
 			}{{"group:" + g.Name, g.Title}, {"groupvalue:" + g.Name, g.Value}} {
 				ev := mnamesEvent{K: "mnames", Lang: lname, M: x.n, Title: asciiSafe(x.f(tag)), TitleEn: asciiSafe(x.f(language.English)),
 					Vals: map[string]string{}, ValsEn: map[string]string{}, Oor: []string{}, OorEn: []string{},
-					UnkRef: asciiSafe(nameMetas[0].ValueOf(0, tag)), BaseVals: map[string]string{}}
+					UnkRef: asciiSafe(nameMetas[0].ValueOf(0, tag)), BaseVals: map[string]string{}, FirstVals: map[string]string{}}
+				ev.FirstTitle = ev.Title
 				calls += 2
 				rec.Add(evBody(ev), "names."+x.n)
 			}
